@@ -504,9 +504,17 @@ func c04PreGateWrites(w *World, r *Report, ns *ssa.Function, gate EdgeSet) {
 		call ssa.CallInstruction
 	}
 	var sites []site
+	// module functions that write one of their own parameters (pass-through wrappers, found to a fixpoint below):
+	// a call of one is a write of the corresponding argument
+	writerFuncs := map[*ssa.Function]int{}
 	isWrite := func(c ssa.CallInstruction) (dataArg ssa.Value, kind string) {
 		k := w.callKey(c)
 		args := c.Common().Args
+		if callee := c.Common().StaticCallee(); callee != nil {
+			if idx, ok := writerFuncs[callee]; ok && idx < len(args) {
+				return args[idx], "write"
+			}
+		}
 		switch {
 		case strings.HasSuffix(k, ".Write") && !c.Common().IsInvoke() && len(args) == 2: // method: recv, p
 			if sl, ok := args[1].Type().Underlying().(*types.Slice); ok && types.Identical(sl.Elem(), types.Typ[types.Byte]) {
@@ -534,6 +542,33 @@ func c04PreGateWrites(w *World, r *Report, ns *ssa.Function, gate EdgeSet) {
 			}
 		})
 	}
+	for round := 0; round < 4; round++ {
+		grew := false
+		for fn := range cl {
+			if w.TestSupport[fn] {
+				continue
+			}
+			allInstrs(fn, func(in ssa.Instruction) {
+				if c := asCall(in); c != nil {
+					if data, kind := isWrite(c); kind == "write" && data != nil {
+						if p, ok := data.(*ssa.Parameter); ok && p.Parent() == fn {
+							for i, q := range fn.Params {
+								if q == p {
+									if _, done := writerFuncs[fn]; !done {
+										writerFuncs[fn] = i
+										grew = true
+									}
+								}
+							}
+						}
+					}
+				}
+			})
+		}
+		if !grew {
+			break
+		}
+	}
 	for fn := range cl {
 		if w.TestSupport[fn] {
 			continue
@@ -556,8 +591,8 @@ func c04PreGateWrites(w *World, r *Report, ns *ssa.Function, gate EdgeSet) {
 		case "write":
 			if c04ConstBytes(data) {
 				r.Ok("O2", cons, "constant bytes: "+describeBytes(data))
-			} else if isParamOf(data, s.fn) && (s.fn.Name() == "Write" || s.fn.Name() == "sendWithWriter") {
-				r.Ok("O2", cons, "pass-through wrapper: writes its own parameter; its callers are checked")
+			} else if _, isWrapper := writerFuncs[s.fn]; isWrapper && isParamOf(data, s.fn) {
+				r.Ok("O2", cons, "pass-through wrapper: writes its own parameter; every call of it is checked as a write of the argument")
 			} else if isLogWrite(w, s.call) {
 				r.Ok("O2", cons, "write to the traffic log file, not to the connection")
 			} else {
@@ -653,11 +688,15 @@ func isLogWrite(w *World, c ssa.CallInstruction) bool {
 	if wr == nil {
 		return false
 	}
-	if ci, ok := wr.(*ssa.ChangeInterface); ok {
-		wr = ci.X
-	}
-	if mi, ok := wr.(*ssa.MakeInterface); ok {
-		wr = mi.X
+	for i := 0; i < 4; i++ {
+		wr = rvCur(wr)
+		if ci, ok := wr.(*ssa.ChangeInterface); ok {
+			wr = ci.X
+		} else if mi, ok := wr.(*ssa.MakeInterface); ok {
+			wr = mi.X
+		} else {
+			break
+		}
 	}
 	fp := fieldPath(wr)
 	return len(fp) > 0 && fp[len(fp)-1].Name() == "logFile"
